@@ -222,6 +222,19 @@ func init() {
 			for t := 0; t < n; t++ {
 				emit("au", "reset")
 				nlogin := 0
+				margins := []int{60000, 600000, 2400000, 2999000, 3001000, 3599000, 3600400, 3600900, 3601000, 3660000, 7200000}
+				if r.Chance(45) {
+					// a session taken to a margin of its lifetime, then used (and used again)
+					emit("au", "login", "alice", "pw-alice", "none")
+					nlogin = 1
+					emit("au", "shift", itoa(margins[r.Intn(len(margins))]))
+					rt := routes[r.Intn(len(routes))]
+					emit("au", "req", rt[0], rt[1], "s0", "-", "-")
+					if r.Chance(50) {
+						emit("au", "shift", itoa(margins[r.Intn(len(margins))]))
+					}
+					emit("au", "req", "GET", "/api/config", "s0", "-", "-")
+				}
 				for i := 0; i < 5+r.Intn(12); i++ {
 					ck := "none"
 					if nlogin > 0 && r.Chance(75) {
@@ -265,7 +278,7 @@ func init() {
 						emit("au", "req", m, rt[1], ck, og, st)
 					case x < 92:
 						// margins around the 1 h lifetime and the 10 min extension threshold
-						emit("au", "shift", itoa([]int{60000, 600000, 2400000, 2999000, 3001000, 3599000, 3601000, 3660000, 7200000}[r.Intn(9)]))
+						emit("au", "shift", itoa([]int{60000, 600000, 2400000, 2999000, 3001000, 3599000, 3600400, 3600900, 3601000, 3660000, 7200000}[r.Intn(11)]))
 					default:
 						emit("au", "gc")
 					}
